@@ -70,9 +70,25 @@ Definition e_msgs (v : val) : val :=
   | _ => verr
   end.
 
+(* messages each with the chain as configured at its moment:
+   (subn table, [(chain, (sender, recipients, headers, body)) ...]) -> as c16_msgs *)
+Definition dec_cm (v : val) : list (policy N) * msg :=
+  match v with
+  | VL [VL ch; m] => (map dec_policy ch, dec_msg m)
+  | _ => ([], dec_msg v)
+  end.
+
+Definition e_cfg (v : val) : val :=
+  match v with
+  | VL [VL tb; VL cms] =>
+      VL (map (fun s => VL [vbool (failed s); VN (next s); VL (map enc_env (results s))])
+              (run_configured N (tbl_subn (map dec_row tb)) ascii_lower masked masked masked 0 (map dec_cm cms)))
+  | _ => verr
+  end.
+
 (* RecipientDomainSplit._get_domain: () = ValueError *)
 Definition e_domain (v : val) : val :=
   match get_domain ascii_lower (get_b v) with Some d => VL [VB d] | None => VL [] end.
 
 Definition entries : list entry :=
-  [("c16_run"%string, e_run); ("c16_domain"%string, e_domain); ("c16_msgs"%string, e_msgs)].
+  [("c16_run"%string, e_run); ("c16_domain"%string, e_domain); ("c16_msgs"%string, e_msgs); ("c16_cfg"%string, e_cfg)].
